@@ -66,7 +66,9 @@ def write_machine(scratch):
     return d
 
 
-def mc_module():
+def mc_module(full=True):
+    ms, pw, te = (MS, POW, TEV) if full else ([NONE, -5, 10, 300], [NONE, -50, 50, 150], [NONE, -100, 100, 2000])
+    table = TABLE if full else [c for c in TABLE if c['id'] in (2, 4, 6, 7)]
     return """------------------------------ MODULE CoilMC ------------------------------
 EXTENDS Coil
 MCNONE == %d
@@ -75,8 +77,8 @@ MCMs == {%s}
 MCPow == {%s}
 MCTe == {%s}
 =============================================================================
-""" % (NONE, ',\n  '.join(to_tla(cfg_rec(c)) for c in TABLE), ', '.join(map(str, MS)), ', '.join(map(str, POW)),
-       ', '.join(map(str, TEV)))
+""" % (NONE, ',\n  '.join(to_tla(cfg_rec(c)) for c in TABLE), ', '.join(map(str, ms)), ', '.join(map(str, pw)),
+       ', '.join(map(str, te)))
 
 
 def mc_cfg(maxops, props=True):
@@ -184,10 +186,9 @@ def _exec(mdir, cid, sched, via_events):
         try:
             h.advance_time_and_run(0)
             h.advance_time_and_run(0)
-        except Exception:  # pylint: disable=broad-except
-            pass
-        refused = h._exception is not None and h._exception is not before
-        return refused
+        except Exception:  # the handler raised: the request was refused  pylint: disable=broad-except
+            return True
+        return h._exception is not None and h._exception is not before
 
     for s in list(sched) + [{'op': 'adv', 'd': 1000}] * 3:
         op = s['op']
@@ -266,7 +267,7 @@ def exec_fuzz(job):
         for e in ('ball_search_enable', 'flipper_enable', 'game_start', 'ball_started'):
             events.add(e)
         events = [e for e in sorted(events) if isinstance(e, str) and '{' not in e and '|' not in e]
-        for _ in range(60):
+        for _ in range(40):
             try:
                 r = rnd.random()
                 if r < 0.55 and switches:
@@ -274,7 +275,7 @@ def exec_fuzz(job):
                     m.switch_controller.process_switch(s, rnd.choice([0, 1]), logical=True)
                 elif r < 0.8 and events:
                     m.events.post(rnd.choice(events))
-                h.advance_time_and_run(rnd.choice([0.0, 0.01, 0.1, 1.0, 5.0]))
+                h.advance_time_and_run(rnd.choice([0.0, 0.01, 0.1, 1.0, 3.0]))
             except Exception:  # pylint: disable=broad-except
                 break
         per = {}
@@ -294,22 +295,26 @@ def run(ctx):
     mdir = write_machine(ctx.scratch)
     wd = tlc.prepare(ctx.scratch, 'Coil', 'coil')
     with open(wd + '/CoilMC.tla', 'w') as f:
-        f.write(mc_module())
+        f.write(mc_module(full=not ctx.quick))
     with open(wd + '/MC.cfg', 'w') as f:
-        f.write(mc_cfg(2 if ctx.quick else 3))
+        f.write(mc_cfg(2))
     r = tlc.expect_ok(tlc.check(wd, 'CoilMC', 'MC.cfg', timeout=3000), 'Coil design check')
-    ctx.add_tlc('CoilMC', r, {'configs': len(TABLE), 'pulse_ms classes': len(MS), 'power classes': len(POW), 'MaxOps': 2 if ctx.quick else 3})
+    ctx.add_tlc('CoilMC', r, {'configs': len(TABLE), 'pulse_ms classes': len(MS), 'power classes': len(POW), 'MaxOps': 2, 'value sets': 'reduced' if ctx.quick else 'full'})
     ctx.coverage['monitors'] += ['Envelope', 'RefuseNotCommand', 'SoftwarePulseEnds', 'HoldWatchdog']
+    with open(wd + '/CoilMC.tla', 'w') as f:
+        f.write(mc_module(full=True))
     with open(wd + '/Gen.cfg', 'w') as f:
         f.write(mc_cfg(10, props=False))
     behs, _ = tlc.simulate(wd, 'CoilMC', 'Gen.cfg', num=400 if ctx.quick else 6000, depth=16 if ctx.quick else 22, seed=ctx.seed)
     rnd = random.Random(ctx.seed)
     jobs = [(mdir, b[0]['cfg']['id'], [s['act'] for s in b], rnd.random() < 0.3) for b in behs]
     traces = harness.pmap(exec_schedule, jobs, chunk=8)
+    ctx.log('api schedules executed: %d' % len(traces))
     fuzz_jobs = [('/repo/mpf/tests/machine_files/' + d, f, ctx.seed * 100 + k)
                  for (d, f) in REPO_MACHINES for k in range(1 if ctx.quick else 6)
                  if os.path.exists('/repo/mpf/tests/machine_files/%s/config/%s' % (d, f))]
     fres = harness.pmap(exec_fuzz, fuzz_jobs, chunk=1)
+    ctx.log('device fuzz executed: %d machines' % len(fuzz_jobs))
     ftraces = [t for r_ in fres for t in r_ if '_skip' not in t]
     ctx.coverage['device_machines'] = sorted({t['_machine'] for t in ftraces})
     ctx.coverage['device_machines_skipped'] = [t['_skip'] for r_ in fres for t in r_ if '_skip' in t][:10]
